@@ -802,6 +802,44 @@ pub mod verif {
         super::add_log2_ceil(x)
     }
 
+    /// One call of `DecoderRleMode::read_varint_clustered` on a decoder with a single cluster
+    /// whose prefix code has only the symbol given (the token costs no bits and can be any value).
+    pub fn rle_step(
+        bitstream: &mut Bitstream,
+        symbol_token: u16,
+        symbol_conf: &IntConf,
+        length_conf: &IntConf,
+        min_symbol: u32,
+        min_length: u32,
+    ) -> CodingResult<RleToken> {
+        fn conf(c: &IntConf) -> IntegerConfig {
+            IntegerConfig {
+                split_exponent: c.split_exponent,
+                split: 1 << c.split_exponent,
+                msb_in_token: c.msb_in_token,
+                lsb_in_token: c.lsb_in_token,
+            }
+        }
+        let mut clusters = Vec::with_capacity(1);
+        clusters.push(0u8);
+        let mut configs = Vec::with_capacity(1);
+        configs.push(conf(symbol_conf));
+        let mut dist = Vec::with_capacity(1);
+        dist.push(prefix::Histogram::verif_single_symbol(symbol_token));
+        let mut inner = DecoderInner {
+            clusters,
+            configs,
+            code: Coder::PrefixCode(Arc::new(dist)),
+        };
+        let mut rle = DecoderRleMode {
+            inner: &mut inner,
+            min_symbol,
+            min_length,
+            len_config: conf(length_conf),
+        };
+        rle.read_varint_clustered(bitstream, 0)
+    }
+
     /// LZ77 decoder state as kept between calls.
     #[derive(Debug, Clone)]
     pub struct Lz77Snapshot {
